@@ -7,7 +7,7 @@ import SciVerif.Tie.Pins
 /-! Tie A obligations for C10 on the current source. -/
 namespace SciVerif.Tie
 -- functions the model relies on without an obligation of its own naming them (pinned by bin/mkpins):
--- PIN-ALSO: Scipipe.FileIP_AuditInfo Scipipe.FileIP_SetAuditInfo Scipipe.UnmarshalAuditInfoJSONFile Scipipe.NewAuditInfo Scipipe.FileIP_Tags Scipipe.FileIP_Tag Scipipe.FileIP_Param Scipipe.NewBaseIP Scipipe.randSeqLC Scipipe.FileIP_AddTag Scipipe.Task_Audit Scipipe.Task_Auditf
+-- PIN-ALSO: Scipipe.FileIP_AuditInfo Scipipe.FileIP_SetAuditInfo Scipipe.UnmarshalAuditInfoJSONFile Scipipe.NewAuditInfo Scipipe.FileIP_Tags Scipipe.FileIP_Tag Scipipe.FileIP_Param Scipipe.NewBaseIP Scipipe.randSeqLC Scipipe.FileIP_AddTag Scipipe.Task_Audit Scipipe.Task_Auditf Scipipe.BaseIP_ID
 open SciVerif.Generated
 
 /-- `writeAuditLogs` fills every field of the record, keys Upstream by input path (sub-stream
@@ -93,6 +93,7 @@ theorem generated_tags_copied :
 
 
 
+
 -- BEGIN PINS (written by bin/mkpins; do not edit by hand)
 /-- the Go functions this property's model and obligations were written against have exactly the
 pinned skeletons (SHA-256 prefix of the atom list) -/
@@ -101,6 +102,7 @@ theorem pinned_skeletons_c10 :
     [("Components.#decls", "84eddb1c2309452c"),
      ("Components.MapToTags_Run", "639dd3a11150ec10"),
      ("Scipipe.#decls", "08e57e98702ecd70"),
+     ("Scipipe.BaseIP_ID", "91629a632bc54fec"),
      ("Scipipe.FileIP_AddTag", "f8c4aaf3b95c7e7d"),
      ("Scipipe.FileIP_AddTags", "7f98650d842d4c76"),
      ("Scipipe.FileIP_AuditFilePath", "23da9f52635ce6f9"),
